@@ -15,6 +15,13 @@ CHECKS = {
         bounds=dict(quick="boundary alphabets, product capped at 8000 per instruction (then the reduced alphabet)", thorough="wider alphabets, cap 60000 per instruction"),
         assumptions=["operand sizes above 1000 for allocation-sizing instructions are the resource envelope (C15)", "EXEC.CMD names resolve to the stubs in /verif/stubs (PATH is set by the supervisor)"],
     ),
+    "C03": dict(
+        families=lambda tier: [fam("tokens", BOTH, shards=8, crumbs=True), fam("chars", BOTH, shards=4, crumbs=True), fam("ladder", BOTH, crumbs=True)],
+        death_is_verdict=True,
+        rule="(tokens) every sequence of up to K tokens over a 26-token alphabet (parentheses, ints incl. +5 and 2147483648, floats incl. 1e3/inf/NaN, TRUE/FALSE/true, a name, an instruction, well-formed / empty / truncated / ill-typed / non-ASCII INT[ FLOAT[ BOOL[ literals, a non-ASCII token), joined by blanks and by newline-tab, parsed into the empty and into a fully populated state; (chars) every character string up to L over I N T [ ] ( ) , 1 blank e-acute; (ladder) token lengths up to 1e5 and nesting up to 1024/4096, balanced and unbalanced; oracle = no panic in the overflow-checking and the release build, no stack other than EXEC touched, and for balanced input EXEC equals the tree built by an independent recursive-descent reference (first token on top, documented classification cascade, malformed vector literal contributes nothing); non-trivial = balanced inputs with a tree comparison",
+        bounds=dict(quick="K=4 tokens (457k sequences + shorter), L=5 characters", thorough="K=5 tokens (11.9M), L=7 characters (19.5M)"),
+        assumptions=["'X[]' (empty literal) may denote the empty vector or be dropped: the documentation is silent, both are accepted"],
+    ),
     "C04": dict(
         families=lambda tier: [fam("scalar", BOTH, shards=4, digests=True, crumbs=True)],
         rule="every BOOLEAN/INTEGER/FLOAT/NAME arithmetic, logic, comparison, min/max, trig and conversion instruction, dispatched by NAME through the real InstructionSet and PushInterpreter::step, on every operand tuple of the boundary alphabets x {exact depth, two bystanders below} x {empty, fully populated} other stacks; oracle = reference model row (Exact / OneOf / Constraint), plus identical per-case outcome digests in the checked (overflow-checking) and release builds; non-trivial = cases whose step changes the state",
@@ -26,6 +33,18 @@ CHECKS = {
         rule="9 stack types x {DUP,POP,SWAP,ROT,YANK,YANKDUP,SHOVE,FLUSH,STACKDEPTH} (every registered one) x depth 0..N of pairwise distinct items x index in {none, MIN, -2..depth+1, MAX} x {no second integer, a second integer below the index}; oracle = ONE generic position map applied to an abstract list (the same function for all nine types) + multiset conservation + every other component unchanged",
         bounds=dict(quick="depth 0..5", thorough="depth 0..7"),
         assumptions=["BOOLEAN items cannot be pairwise distinct; an aperiodic pattern is used instead"],
+    ),
+    "C06": dict(
+        families=lambda tier: [fam("step"), fam("loops")],
+        rule="(step) one step of EXEC.IF, CODE.IF, EXEC.K, EXEC.S, EXEC.Y, CODE.DO, CODE.DO*, CODE.QUOTE, EXEC.DUP/POP/SWAP/ROT/FLUSH and of list unpacking for all EXEC and CODE depths 0..4 of distinct items x BOOLEAN in {[],[T],[F],[T,F]} against the reference rows; (loops) whole executions, by single steps to quiescence, of EXEC.LOOP / CODE.LOOP / INTVECTOR.LOOP programs: iteration counts -1..N, every int vector up to length 3 over {1,2}, 12 bodies (incl. bodies that read INDEX.CURRENT, push/pop INTEGER, are empty, or are themselves loops), two-level nestings of all 9 loop-kind pairs, each from an empty state and from one that already holds an index, a vector and an integer; oracle = the log of a harness-registered PROBE instruction (INDEX.CURRENT, top INTEGER, INDEX depth) and the complete final state equal those of a structured reference that encodes the documented whole-run meaning (body destination-many times with CURRENT = 0..n-1, once per element, nothing left behind)",
+        bounds=dict(quick="n <= 5, vectors <= 3, nesting 2", thorough="n <= 8, vectors <= 4, more bodies"),
+        assumptions=["loop bodies in the alphabet do not manipulate the EXEC stack below themselves"],
+    ),
+    "C07": dict(
+        families=lambda tier: [fam(t) for t in ("BOOLEAN", "INTEGER", "FLOAT", "CODE", "EXEC", "BOOLVECTOR", "INTVECTOR", "FLOATVECTOR", "cross")],
+        rule="explicit-state BFS from the empty state, one BFS per value type T (and one across two types): actions = put one token on EXEC and execute one real interpreter step (names X, Y, NAME.QUOTE, T.DEFINE, CODE.DEFINITION, T.POP, NAME.POP, two values of T incl. code items that mention a name) or execute one pending step; states de-duplicated on the canonical snapshot (bindings and quote flag included); oracle after EVERY transition: full state equals the reference interpreter's (unbound name -> NAME; bound -> binding pushed for execution; quote affects exactly the next name; redefinition replaces; CODE.DEFINITION returns the binding)",
+        bounds=dict(quick="depth 8 (cross 6), stacks capped at depth 3-4", thorough="depth 11 (cross 8)"),
+        assumptions=["two names and two values per type"],
     ),
     "C08": dict(
         families=lambda tier: [fam("unary", shards=4, crumbs=True), fam("binary", shards=12, crumbs=True), fam("api", shards=2)],
@@ -44,6 +63,12 @@ CHECKS = {
         rule="all registered instructions by NAME: (missing) every non-empty subset of the instruction's operand stacks made too short, every depth below the need, on an empty and on a fully populated state (every stack, INDEX, queues, graphs, bindings); (fired) the operand product of the small alphabet on both bases; oracle = on the full snapshot: unfired => nothing pushed, operand stacks lose at most their own top operands, every other component identical; fired => change confined to the documented footprint",
         bounds=dict(quick="tiny alphabet for fired cases", thorough="boundary alphabet for fired cases (capped per instruction, then tiny)"),
         assumptions=["footprints are read off the doc comments (harness/src/foot.rs)"],
+    ),
+    "C11": dict(
+        families=lambda tier: [fam("exact", shards=4), fam("floats", shards=4)],
+        rule="every code tree up to S points over {0,-1,5,MIN,MAX,TRUE,FALSE,A,x1,INTEGER.+,NOOP,CODE.QUOTE} (exact clause) and over ten floats incl. -0.0, 0.0004, 1e10, f32::MAX, inf, -inf, NaN (print-parse-print clause), printed three ways (Item::to_string, PushStack::to_string of a stack with neighbours, CODE.PRINT through step), parsed back with the real parser; oracle = structural equality by an independent walk (not Item::equals) / identical second print",
+        bounds=dict(quick="trees <= 4 points", thorough="trees <= 5 points"),
+        assumptions=["vector literals are outside the property (they print without their type prefix)"],
     ),
     "C16": dict(
         families=lambda tier: [fam("int"), fam("item")],
